@@ -20,7 +20,7 @@ import re
 import sys
 from fractions import Fraction as F
 
-from ..core import WholeFloats, Sub, fail, close, lit
+from ..core import Siblings, WholeFloats, Sub, fail, close, lit
 
 STEP_LIMIT = 200000
 MAX_FAILS_PER_KIND = 5       # a block case reports at most this many failing inputs per kind of failure
@@ -1077,5 +1077,22 @@ class RoundWholeFloats(WholeFloats):
     ]
 
 
+NEEDS_ZYGOTE = True
+
+
+class RoundSiblings(Siblings):
+    name = 'c17.siblings'
+    GROUPS = [
+        (['INT({0})', 'EVEN({0})', 'ODD({0})', 'SIGN({0})', 'FACT({0})', 'FACTDOUBLE({0})', 'ROMAN({0})',
+          'ARABIC(ROMAN({0}))', 'DEC2HEX({0})', 'HEX2DEC(DEC2HEX({0}))', 'ROUND({0},0)', 'ROUNDUP({0},0)',
+          'ROUNDDOWN({0},0)', 'BASE({0},2)', 'CEILING({0})', 'FLOOR({0})', 'ABS({0})'],
+         [(n,) for n in list(range(0, 13)) + [20, 255, 3999, -3, 2.5, -2.5]]),
+        (['ROUND({0},{1})', 'ROUNDUP({0},{1})', 'ROUNDDOWN({0},{1})', 'CEILING({0},{1})', 'FLOOR({0},{1})',
+          'QUOTIENT({0},{1})', 'MOD({0},{1})', 'BASE({0},{1})', 'DECIMAL({0},{1})', 'DEC2HEX({0},{1})', 'ROMAN({0},{1})',
+          'IMREAL(COMPLEX({0},{1}))', 'IMAGINARY(COMPLEX({0},{1}))', 'POWER({0},{1})'],
+         [(7, 2), (-7, 2), (7, -2), (255, 16), (12, 3), (3, 4), (10, 10), (499, 4), (1234.5678, 2), (1234.5678, -2), (5, 0)]),
+    ]
+
+
 SUBS = [Rounding(), CeilFloor(), CeilFloorSmall(), IntParitySign(), QuotientMod(), Factorials(), HexRoundTrip(), BaseDecimal(),
-        BaseErrors(), Roman(), ComplexParts(), RoundWholeFloats()]
+        BaseErrors(), Roman(), ComplexParts(), RoundWholeFloats(), RoundSiblings()]
